@@ -157,6 +157,9 @@ def run(db, chk):
     chk.rule("C13-Q2", "non-linear case: the residual the Newton loop evaluates is delta + F delta^n - "
              "delta_0 with F = K dt (A w)^m / d^n, and the second iterate is delta_0 - f/f' (symbolic "
              "identity on the first two evaluations)", min_instances=1)
+    chk.rule("C13-Q3", "with zero erodibility or a zero time step the returned erosion is exactly 0 for every "
+             "exponent class, including values a fast path might single out (1, 2, 0.5, 3): nothing divides by "
+             "the vanishing factor", min_instances=10)
     chk.rule("C13-N1", "the Newton-Raphson iteration of the non-linear case stops on a two-sided "
              "test of the residual against the tolerance (|residual| <= tolerance)", min_instances=1)
     chk.rule("C13-L2", "the flag and the stored exponent are written only by set_slope_exp (so "
@@ -217,7 +220,7 @@ def run(db, chk):
 
 from .. import ratfun                     # noqa: E402
 from ..ratfun import Dual                 # noqa: E402
-from ..interp import LoopBound, PyVec, ElemRef, NOT_HANDLED, Ref   # noqa: E402
+from ..interp import LoopBound, PyVec, ElemRef, NOT_HANDLED, Ref, Poly   # noqa: E402
 from .routers import Table               # noqa: E402
 
 QNODE = 7
@@ -256,12 +259,20 @@ class EqWorld(World):
             return self.tables[name]
         if name == "nodes_indices_bottomup":
             return PyVec([QNODE])
+        if name == "single_flow":
+            return len(self.recs) == 1
         return NOT_HANDLED
 
     def external(self, it, fn, call, frame):
         bn = call.get("bn", "")
         name = bn.split("::")[-1]
         args = call.get("a", [])
+        if bn == "std::numeric_limits::epsilon":
+            return 2.220446049250313e-16
+        if bn in ("std::sqrt", "sqrt"):
+            x = Dual.of(it.rv(it.eval(args[0], frame)))
+            import math as _m
+            return Dual(_m.sqrt(max(x.rep, 0.0)), Poly.sym("sqrt[%s]" % x.key()))
         obj = call.get("obj")
         if bn in ("std::pow", "pow"):
             return ratfun.upow(it.rv(it.eval(args[0], frame)), it.rv(it.eval(args[1], frame)))
@@ -319,8 +330,15 @@ def eq_values(recs, n_rep):
     return v
 
 
-def run_equation(er, recs, linear):
+def run_equation(er, recs, linear, n_value=None, zero=None):
+    """zero: None | "K" | "dt" -- that factor is exactly 0 (no erodibility / no time)"""
     v = eq_values(recs, 1.0 if linear else 1.7)
+    if n_value is not None:
+        v["n"] = Dual.of(n_value)
+    if zero == "K":
+        v["K"] = Dual.of(0)
+    if zero == "dt":
+        v["dt"] = Dual.of(0)
     w = EqWorld(recs, v)
     R, C, D, Wt = (Table(x) for x in ("r", "c", "d", "w"))
     C[(QNODE,)] = len(recs)
@@ -335,6 +353,14 @@ def run_equation(er, recs, linear):
                      "m_slope_exp": v["n"], "m_tolerance": v["tol"], "m_linear": linear})
     status = "ok"
     try:
+        # the classification flags (linear case and whatever else the setter derives from the
+        # exponent) are computed by the library's own setter
+        sse = [f for f in er.unit.fns.values() if f.cls == SPL and f.name == "set_slope_exp"]
+        if sse:
+            it.call_fn(sse[0], this, [v["n"]])
+            if bool(this.fields.get("m_linear")) != bool(linear):
+                raise AnalysisBroken("C13: set_slope_exp classifies the representative exponent %r as %s"
+                                     % (v["n"], "linear" if this.fields.get("m_linear") else "non-linear"))
         it.call_fn(er, this, [Sym("elevarray", "elev"), Sym("area", "A"), v["dt"]])
     except LoopBound:
         status = "loop-bound"
@@ -400,6 +426,27 @@ def equation_rules(db, chk):
                 bad.append("residual #%d is not delta + F*delta^n - delta_0 with F = K*dt*(A*w)^m/d^n "
                            "(delta_1 = delta_0 - f/f'): got %r" % (k + 1, o))
                 break
+        # ---- Q3: zero erodibility / zero time step, for ordinary and "special" exponents
+        for n_val, lin in ((1.0, True), (1.7, False), (2.0, False), (0.5, False), (3.0, False)):
+            for zero in ("K", "dt"):
+                n += 1
+                bad3 = []
+                try:
+                    w3, v3, st3 = run_equation(er, [20], lin, n_value=n_val, zero=zero)
+                    if st3.startswith("threw"):
+                        bad3.append(st3)
+                    elif st3 == "loop-bound":
+                        bad3.append("the iteration does not stop although the residual is exactly 0")
+                    elif len(w3.written) != 1 or not Dual.of(w3.written[0]).same(0):
+                        bad3.append("erosion written: %r (expected exactly 0)" % (w3.written[:1],))
+                except AnalysisBroken as ex:
+                    if "representative is 0" in str(ex):
+                        bad3.append("divides by the factor K*dt*(A*w)^m/d^n, which is 0 here: 0/0 = NaN erosion")
+                    else:
+                        raise
+                chk.ob("C13-Q3", "[%s] slope exponent %g, %s = 0: zero erosion, no division by the vanishing factor"
+                       % (uname, n_val, zero), not bad3, where=er.ploc, function=er.bn, construct="zero-factor",
+                       detail="; ".join(bad3)[:300], extra={"unit": uname})
         chk.ob("C13-Q2", "[%s] non-linear case: the first two Newton residuals are those of the "
                "discrete equation (symbolic identity)" % uname, not bad, where=er.ploc, function=er.bn,
                construct="newton-residual", detail="; ".join(bad)[:400], extra={"unit": uname})
